@@ -249,6 +249,54 @@ theorem authVerification_sync (s : State) (order src tgt : Nat) (sigOk : Bool) (
             dsimp only
             rw [t3 hr, bestChain_congr t1 t2]
           · intro h; cases h
+/-- every block arrival of the history is answered without error and every vote with `ok`
+    (histories of block arrivals and votes only) -/
+def AnswersOK : State → List Event → Prop
+  | _, [] => True
+  | s, .deliver b :: t => (s.processBlock b).2 ≠ .err ∧ AnswersOK (step s (.deliver b)) t
+  | s, .vote o a b c :: t => (s.authVerification o a b c).2 = .ok ∧ AnswersOK (step s (.vote o a b c)) t
+  | _, _ :: _ => False
+
+def AnswersOK.dec : (evs : List Event) → (s : State) → Decidable (AnswersOK s evs)
+  | [], _ => .isTrue trivial
+  | .deliver _ :: t, _ => @instDecidableAnd _ _ inferInstance (AnswersOK.dec t _)
+  | .vote _ _ _ _ :: t, _ => @instDecidableAnd _ _ inferInstance (AnswersOK.dec t _)
+  | .define _ :: _, _ => .isFalse (by simp [AnswersOK])
+  | .restart :: _, _ => .isFalse (by simp [AnswersOK])
+
+instance (s : State) (evs : List Event) : Decidable (AnswersOK s evs) := AnswersOK.dec evs s
+
+theorem run_sync : ∀ (evs : List Event) (s : State), s.best = s.bestChain → AnswersOK s evs →
+    (run s evs).best = (run s evs).bestChain := by
+  intro evs
+  induction evs with
+  | nil => intro s h _; exact h
+  | cons e t ih =>
+    intro s h hok
+    cases e with
+    | define hd => exact absurd hok (by simp [AnswersOK])
+    | restart => exact absurd hok (by simp [AnswersOK])
+    | deliver b =>
+      obtain ⟨h1, h2⟩ := hok
+      exact ih _ (processBlock_sync s b h h1) h2
+    | vote o a b c =>
+      obtain ⟨h1, h2⟩ := hok
+      exact ih _ (authVerification_sync s o a b c h h1) h2
+
+theorem run_defines (ds : List Header) : ∀ (s : State),
+    (run s (ds.map Event.define)).tree = s.tree ∧ (run s (ds.map Event.define)).best = s.best := by
+  induction ds with
+  | nil => intro s; exact ⟨rfl, rfl⟩
+  | cons d t ih => intro s; exact ih _
+
+/-- a fresh node that has only been told block definitions follows its (one-node) fork choice -/
+theorem init_defs_sync (cfg : Config) (g : Header) (ds : List Header) :
+    (run (State.init cfg g) (ds.map Event.define)).best = (run (State.init cfg g) (ds.map Event.define)).bestChain := by
+  obtain ⟨h1, h2⟩ := run_defines ds (State.init cfg g)
+  unfold State.bestChain
+  rw [h1, h2]
+  simp [State.init, Tree.bestNode, Tree.bestList]
+
 /-! ### a universe from the list of blocks a history delivers -/
 
 /-- The blocks `g :: D` form a consistent family: equal ids mean equal parent and height (ids
